@@ -37,6 +37,10 @@ fn main() {
                     _ => usage(),
                 };
             },
+            "--crumb" => {
+                i += 1;
+                std::env::set_var("RVMC_CRUMB_REPLAY", args.get(i).unwrap_or_else(|| usage()));
+            },
             "--replay" => {
                 i += 1;
                 replay = Some(std::path::PathBuf::from(args.get(i).unwrap_or_else(|| usage())));
@@ -48,6 +52,11 @@ fn main() {
     let seed = std::env::var("VERIF_SEED").ok().and_then(|x| x.parse::<u64>().ok()).unwrap_or(1);
     let ctx = Ctx { prop: prop.clone(), tier, seed, replay, start: Instant::now(), threads: common::par::default_threads() };
     let _ = props::CTX.set(Ctx { prop: ctx.prop.clone(), tier: ctx.tier, seed: ctx.seed, replay: ctx.replay.clone(), start: ctx.start, threads: ctx.threads });
+    // supervised mode: checks that can be killed by a signal coming out of rivia (abort on a double
+    // panic, stack overflow) run in a child process with breadcrumbs; see common::crumb
+    if ctx.replay.is_none() && std::env::var("RVMC_CHILD").is_err() && std::env::var("RVMC_NO_SUPERVISOR").is_err() {
+        std::process::exit(supervise(&prop, &ctx));
+    }
     // a panic inside a check's own code (outside its catch_unwind sections) must not lose the violations
     // recorded so far: report them (exit 1) or, if there are none, exit 2 as a machinery error
     let code = match std::panic::catch_unwind(std::panic::AssertUnwindSafe(|| dispatch(&prop, &ctx))) {
@@ -92,4 +101,82 @@ fn dispatch(prop: &str, ctx: &Ctx) -> i32 {
             2
         },
     }
+}
+
+/// run the check in a child process; a child killed by a signal is triaged through its breadcrumbs
+fn supervise(prop: &str, ctx: &Ctx) -> i32 {
+    use std::os::unix::process::ExitStatusExt;
+    let exe = std::env::current_exe().expect("current_exe");
+    let base = if std::path::Path::new("/dev/shm").is_dir() { std::path::PathBuf::from("/dev/shm") } else { std::env::temp_dir() };
+    let crumbs = base.join(format!("rvmc.{}.crumbs", std::process::id()));
+    let _ = std::fs::remove_dir_all(&crumbs);
+    std::fs::create_dir_all(&crumbs).expect("crumb dir");
+    let args: Vec<String> = std::env::args().skip(1).collect();
+    let st = std::process::Command::new(&exe).args(&args).env("RVMC_CHILD", "1").env("RVMC_CRUMB_DIR", &crumbs).status();
+    let code = match st {
+        Ok(s) if s.code().is_some() => s.code().unwrap(),
+        Ok(s) => {
+            let sig = s.signal().unwrap_or(0);
+            eprintln!("check process was killed by signal {}: re-running the cases that were in flight, one per process", sig);
+            let mut reproduced = 0;
+            for (i, crumb) in common::crumb::read_all(&crumbs).iter().enumerate() {
+                let f = crumbs.join(format!("replay{}.json", i));
+                let _ = std::fs::write(&f, crumb);
+                let again = std::process::Command::new(&exe)
+                    .arg(prop)
+                    .arg("--tier")
+                    .arg(ctx.tier.name())
+                    .arg("--crumb")
+                    .arg(&f)
+                    .env("RVMC_CHILD", "1")
+                    .env_remove("RVMC_CRUMB_DIR")
+                    .stdout(std::process::Stdio::null())
+                    .stderr(std::process::Stdio::null())
+                    .status();
+                if let Ok(a) = again {
+                    if a.code().is_none() {
+                        reproduced += 1;
+                        let case = common::json::parse(crumb).unwrap_or(common::json::J::s(crumb));
+                        let what = case.get("program").and_then(|x| x.as_str()).unwrap_or("?").to_string();
+                        let names = case.get("names").and_then(|x| x.as_str()).unwrap_or("?").to_string();
+                        common::report::vio(
+                            &format!("{} process-killed-by-signal program={}", prop, names),
+                            || format!("exploring the program [{}] kills the whole process with signal {:?} (reproduced in a fresh process running only this case) - typically a second panic while unwinding, e.g. a destructor that takes the poisoned filesystem lock", what, a.signal()),
+                            || case.clone(),
+                        );
+                    }
+                }
+            }
+            if reproduced > 0 {
+                props::hang_exit(prop, "process killed by a signal")
+            } else if matches!(sig, 4 | 6 | 7 | 11) {
+                // SIGILL/SIGABRT/SIGBUS/SIGSEGV and no single case to blame: the harness itself is unchanged
+                // and never dies on the unchanged tree, so a death that repeats is attributed to rivia
+                let again = std::process::Command::new(&exe).args(&args).env("RVMC_CHILD", "1").env_remove("RVMC_CRUMB_DIR").stdout(std::process::Stdio::null()).stderr(std::process::Stdio::null()).status();
+                match again {
+                    Ok(a) if a.code().is_none() && a.signal() == Some(sig) => {
+                        common::report::vio(
+                            &format!("{} process-killed-by-signal (whole check, no single case identified)", prop),
+                            || format!("the check process is killed by signal {} on every run (twice in a row); rivia aborts the process (double panic in a destructor, stack overflow or allocation failure)", sig),
+                            || common::json::J::Null,
+                        );
+                        props::hang_exit(prop, "process killed by a signal")
+                    },
+                    _ => {
+                        eprintln!("machinery: the check process died once with signal {} but not on the re-run", sig);
+                        2
+                    },
+                }
+            } else {
+                eprintln!("machinery: the check process was killed by signal {} (not attributable)", sig);
+                2
+            }
+        },
+        Err(e) => {
+            eprintln!("machinery: cannot start the supervised check process: {}", e);
+            2
+        },
+    };
+    let _ = std::fs::remove_dir_all(&crumbs);
+    code
 }
